@@ -17,13 +17,18 @@ PROP = {'streams': [('c18', 1500, 100000), ('c18symc', 1500, 100000)],
          '(policy, request, store, outcome). Stream c18symc (the compiler fragment modelled in Lean): one case = one random expression of the '
          'fragment (bool/long/string/entity literals, principal/action/resource, ! - && || if == < <= + - *, longs near the i64 bounds, and `context`, '
          '`context.a`, `context has a` over a context type with required Bool/Long and optional Long/String/User attributes, optional ones behind has-guards, '
-         'undeclared attributes, `context == context`; third round: `e like "pat"` on string terms incl. guarded `context.s`, patterns with wildcards and an escaped star, and `e is T` on principal / resource / action / entity literals / guarded `context.u`) as the when-clause of a static policy on a fixed schema and a request whose context supplies each optional '
+         'undeclared attributes, `context == context`; third round: `e like "pat"` on string terms incl. guarded `context.s`, patterns with wildcards and an escaped star, and `e is T` on principal / resource / action / entity literals / guarded `context.u`; fourth round: set literals of 1..4 longs / strings / users drawn from small pools (duplicates frequent) with `contains`, `containsAll`, `containsAny`, `isEmpty`, set `==` incl. a set against itself, and an erroring element `[1, MAX + 1, ..]`) as the when-clause of a static policy on a fixed schema and a request whose context supplies each optional '
          'attribute with probability 1/2; the real typechecker + compiler run through '
          'CompiledPolicy::compile_with_custom_symenv on SymEnv::from_concrete_env, the compiled term is read back from the Debug output and must be '
          'the literal some true / some false / none; it is compared with Evaluator::evaluate (implementation-level) and, through the model line '
          '`(symc REQ (etys ..) (ctxty ..) EXPR)`, with the term the Lean compiler model folds on the context term ctxTermOf builds; non-trivial = distinct '
          '(expression, principal, action, context)',
  'theorems': ['compile_correct_fragment2',
+              'set_canonical_members',
+              'set_member_folds',
+              'set_subset_folds',
+              'set_intersects_folds',
+              'set_is_empty_folds',
               'compile_correct_fragment2_conformant',
               'ctxTermOf_ctxOK',
               'compile_rejects_iff',
@@ -44,7 +49,8 @@ PROP = {'streams': [('c18', 1500, 100000), ('c18symc', 1500, 100000)],
               'disjoint_iff',
               'opt_agrees',
               'isAuthorized_compiled'],
- 'assumptions': ['THIRD ROUND: (1) compile_rejects_iff / compile_typeOf_ctype: on SFrag2 the compiler\'s outcome class (accepted with a term of type ty / TypeError / NoSuchAttribute / model-only `outside`) equals `ctype`, the mirror of compiler.rs\' own type checks, which reads from the concrete semantics only whether an if/&&/|| guard evaluates to a boolean constant (constant guards make the compiler skip the other operand\'s checks); same hypothesis about the context term as compile_correct_fragment2; (2) ctxTermOf_ctxOK: that hypothesis (CtxOK) is PROVED for the term ctxTermOf builds from any flat context whose attributes are declared and primitive (FlatConforms) — compile_correct_fragment2_conformant; the statements below about "no statement is proved about WHEN the compiler rejects" and "ctxTermOf satisfies CtxOK … not proved in general" are superseded. (3) `like` (compile_like + factory string_like, folded with the evaluator\'s wildcard match) and `is` (compile_is) are IN the fragment SFrag2 now, wrapped in if_some(operand, ..) as both Rust compilers do (c18symc observes symccopt via CompiledPolicy::compile_with_custom_symenv), covered by every SFrag2 theorem and sampled by c18symc. Still outside: sets (set literals, contains*, isEmpty, set == ; no SFrag3), attribute access on entity-typed terms, record literals, nested-record/set context attributes',
+ 'assumptions': ['FOURTH ROUND (sets): set terms (TermType.set, Term.setNil/setCons with the BTreeSet invariant as the separate predicate setWF, canonical form setOf), factory set_of/set_member/set_subset/set_inter/set_is_empty/set_intersects/any_none/if_all_some, compile_set, the isEmpty / contains / containsAll / containsAny arms and compile on set literals are MODELLED (fragment SFrag3, inFrag3 in the driver) and compared line by line with the Rust compiler by c18symc (set literals of longs/strings/users with duplicates, contains*, isEmpty, set ==, erroring element [1, MAX+1]); PROVED only: the canonical form keeps exactly the members (set_canonical_members) and set_member / set_subset / set_intersects / set_is_empty fold on canonical literal sets to membership / inclusion / overlap / emptiness of the original element lists (set_member_folds, set_subset_folds, set_intersects_folds, set_is_empty_folds); the general statement CompileCorrectFragment3 is a def, NOT a theorem (set ==, if_all_some / compile_set error propagation and the link from these factory lemmas to evaluate through compile are covered by closed examples and by the differential run only); ctype / compile_rejects_iff / compile_typeOf_ctype / compilePolicy_discharged / vc_skeleton_correct_fragment remain on SFrag2. The statement "Still outside: sets … no SFrag3" below is superseded as far as the MODEL is concerned. Ill-typed sets ([1, "x"], []) are not generated: the typechecker drops operands behind guards it types False/True, so the compiler never sees them while the model line carries the original condition',
+                 'THIRD ROUND: (1) compile_rejects_iff / compile_typeOf_ctype: on SFrag2 the compiler\'s outcome class (accepted with a term of type ty / TypeError / NoSuchAttribute / model-only `outside`) equals `ctype`, the mirror of compiler.rs\' own type checks, which reads from the concrete semantics only whether an if/&&/|| guard evaluates to a boolean constant (constant guards make the compiler skip the other operand\'s checks); same hypothesis about the context term as compile_correct_fragment2; (2) ctxTermOf_ctxOK: that hypothesis (CtxOK) is PROVED for the term ctxTermOf builds from any flat context whose attributes are declared and primitive (FlatConforms) — compile_correct_fragment2_conformant; the statements below about "no statement is proved about WHEN the compiler rejects" and "ctxTermOf satisfies CtxOK … not proved in general" are superseded. (3) `like` (compile_like + factory string_like, folded with the evaluator\'s wildcard match) and `is` (compile_is) are IN the fragment SFrag2 now, wrapped in if_some(operand, ..) as both Rust compilers do (c18symc observes symccopt via CompiledPolicy::compile_with_custom_symenv), covered by every SFrag2 theorem and sampled by c18symc. Still outside: sets (set literals, contains*, isEmpty, set == ; no SFrag3), attribute access on entity-typed terms, record literals, nested-record/set context attributes',
                  'SECOND ROUND: the fragment now also covers `context`, `e.a` and `e has a` on record-typed terms (record terms / record term types, compile_attrs_of/'
                  'has_attr/get_attr, factory record_get/is_some, the Record arm of Term::from_value for a FLAT context type = ctxTermOf): compile_correct_fragment2 '
                  'assumes the context term represents the context attribute by attribute (CtxOK: required -> literal, optional present -> some literal, absent -> '
@@ -70,7 +76,8 @@ PROP = {'streams': [('c18', 1500, 100000), ('c18symc', 1500, 100000)],
                  'default entities must agree with SymCC) and reported as known-finding hits, never as agreement',
                  'templates / linked policies are not compiled (SymCC rejects them); request environments are those of the generated requests']}
 
-TEXT = ('Third round: `compile_rejects_iff` (the compiler\'s own typing discipline `ctype` decides exactly when it rejects / what type the accepted term has, on SFrag2) and `ctxTermOf_ctxOK` (the context-term hypothesis of compile_correct_fragment2 is discharged for flat conformant contexts); `like` / `is` added to the fragment. '
+TEXT = ('Fourth round (sets): set literal terms with a canonical form, compile_set, contains / containsAll / containsAny / isEmpty / set == and the factory set_member / set_subset / set_intersects / set_is_empty folding are MODELLED (fragment SFrag3) and checked line by line against the Rust compiler by c18symc; proved: the canonical form keeps exactly the members and set_member / set_subset / set_intersects / set_is_empty fold to membership / inclusion / overlap / emptiness of the element lists (`set_canonical_members`, `set_member_folds`, `set_subset_folds`, `set_intersects_folds`, `set_is_empty_folds`); the general `CompileCorrectFragment3` is stated as a def and NOT proved; ctype / compile_rejects_iff remain on SFrag2. '
+ 'Third round: `compile_rejects_iff` (the compiler\'s own typing discipline `ctype` decides exactly when it rejects / what type the accepted term has, on SFrag2) and `ctxTermOf_ctxOK` (the context-term hypothesis of compile_correct_fragment2 is discharged for flat conformant contexts); `like` / `is` added to the fragment. '
  'Lean model `Cedar.SymC` (Cedar/SymCompile.lean): a fragment of the symbolic compiler and term factory (literals, principal/action/'
  'resource, ! - && || if == < <= + - * with overflow -> none; second round: record terms, `context`, `e.a` / `e has a` on record-typed terms with optional '
  'attributes as option-typed fields, theorem `compile_correct_fragment2` under the hypothesis that the context term represents the flat context; every branch of the mirrored factory functions, App nodes kept). Theorem '
